@@ -55,7 +55,25 @@ def sess_retyped(seed, target=0):
                 same_shared = same_shared and shared(d2) == shared(doc)
             except Exception:  # noqa
                 same_index = same_shared = False
+        # ... and exactly as in a **kern spine: the rows that hold a barline open a measure when the same rows are presented under
+        # **kern (only those rows are compared: which row opens the FIRST measure depends on what counts as a note, and free text
+        # read as **kern is something else - a note, a rest or a malformed cell)
+        bar_rows = lambda d: [s for s in d.measure_start_tree_stages  # noqa
+                              if any(n.token is not None and n.token.category.name == 'BARLINES' for n in d.tree.stages[s])]
+        lk = copy.deepcopy(lines)
+        for e in lk:
+            if e['ev'] == 'header':
+                for c in e['cells']:
+                    c['t'] = cps('**kern')
+        try:
+            dk, _ = kp.loads(session.render(lk))
+            as_kern = bar_rows(dk) == bar_rows(doc) and \
+                [s for s, st in enumerate(dk.tree.stages) if any(n.token is not None and n.token.category.name == 'BARLINES' for n in st)] == \
+                [s for s, st in enumerate(doc.tree.stages) if any(n.token is not None and n.token.category.name == 'BARLINES' for n in st)]
+        except Exception:  # noqa
+            as_kern = False
         snap = evs[-1]['snap']
+        evs.append({'ev': 'call', 'op': 'flag', 'name': 'retype.barline_rows_open_measures_as_under_kern', 'value': as_kern, 'args': {}, 'snap': snap})
         evs.append({'ev': 'call', 'op': 'flag', 'name': 'retype.same_measure_index_under_every_type', 'value': same_index, 'args': {}, 'snap': snap})
         evs.append({'ev': 'call', 'op': 'flag', 'name': 'retype.same_shared_tokens_under_every_type', 'value': same_shared, 'args': {}, 'snap': snap})
 
